@@ -85,3 +85,64 @@ Definition c13_not_a_list : list string := [
   "tc:insert:DATETIME64(";
   "tc:insert:UNION"
 ].
+
+(** C11: places where a statement parser looks at EOF or at the separator, or advances the
+    cursor unconditionally in a loop.  [c11_known_sites] are the ones behind the known findings
+    (they treat EOF but not [;] as the end of the statement, or consume the separator);
+    [c11_reviewed_sites] were read and are harmless for the separator: they stop on a token of
+    their own syntax, or on EOF inside a construct where [;] cannot be the next token
+    (identifier parsing, Snowflake stage names and COPY option lists, MERGE clauses and DECLARE
+    treat [;] like EOF explicitly; parse_copy's expect_token(';') is the documented COPY .. FROM
+    STDIN exception). *)
+Definition c11_known_sites : list string := [
+  "parser/mod:parse_flush/next_loop/-#0";
+  "parser/mod:parse_cache_table/eof/-#0";
+  "parser/mod:parse_cache_table/eof/-#1";
+  "parser/mod:parse_cache_table/eof/-#2";
+  "parser/mod:parse_cache_table/eof/-#3";
+  "parser/mod:parse_cache_table/eof/-#4";
+  "parser/mod:parse_identifiers/next_loop/-#0";
+  "parser/mod:parse_identifiers/eof/-#0"
+].
+
+Definition c11_reviewed_sites : list string := [
+  "dialect/snowflake:parse_create_table/next_loop/-#0";
+  "dialect/snowflake:parse_create_table/eof/-#0";
+  "dialect/snowflake:parse_copy_into/next_loop/-#0";
+  "dialect/snowflake:parse_select_items_for_data_load/next_loop/-#0";
+  "dialect/snowflake:parse_select_items_for_data_load/next_loop/-#1";
+  "dialect/snowflake:parse_select_items_for_data_load/next_loop/-#2";
+  "dialect/snowflake:parse_parentheses_options/next_loop/-#0";
+  "parser/mod:parse_wildcard_expr/next_loop/-#0";
+  "parser/mod:parse_prefix/next_loop/-#0";
+  "parser/mod:parse_infix/next_loop/-#0";
+  "parser/mod:parse_json_access/next_loop/-#0";
+  "parser/mod:parse_snowflake_declare/semi/consume_token#0";
+  "parser/mod:parse_copy/semi/expect_token#0";
+  "parser/mod:parse_string_values/next_loop/-#0";
+  "parser/mod:parse_string_values/next_loop/-#1";
+  "parser/mod:parse_multipart_identifier/eof/-#0";
+  "parser/mod:parse_multipart_identifier/next_loop/-#0";
+  "parser/mod:parse_multipart_identifier/eof/-#1";
+  "parser/mod:parse_multipart_identifier/eof/-#2";
+  "parser/mod:parse_identifier/next_loop/-#0";
+  "parser/mod:parse_identifier/next_loop/-#1";
+  "parser/mod:parse_identifier/eof/-#0";
+  "parser/mod:parse_identifier/eof/-#1";
+  "parser/mod:parse_optional_type_modifiers/next_loop/-#0";
+  "parser/mod:parse_for_xml/next_loop/-#0";
+  "parser/mod:parse_for_json/next_loop/-#0";
+  "parser/mod:parse_remaining_set_exprs/next_loop/-#0";
+  "parser/mod:parse_repetition_pattern/next_loop/-#0";
+  "parser/mod:parse_merge_clauses/eof/-#0"
+].
+
+(** C11: statement kinds whose parser does not stop before the separator (sampled). *)
+Definition c11_known_kinds : list string := [
+  "script:Cache";
+  "script:CopyIntoSnowflake";
+  "script:CreateTable:AS_TABLE";
+  "script:Declare";
+  "script:Flush";
+  "script:ShowVariable"
+].
